@@ -212,6 +212,40 @@ if __name__ == "__main__":
             for r in ex.map(process_neutral, dirs):
                 print(time.strftime("%T"), r, flush=True)
         sys.exit(0)
+    if sys.argv[1] == "neutral-table":
+        root = os.path.join(V, "neutral")
+        tally = {"pass": 0, "tolerated": 0, "false alarm": 0, "infra": 0, "pending": 0}
+        rows = []
+        for d in sorted(os.listdir(root)):
+            mp = os.path.join(root, d, "meta.json")
+            if not os.path.exists(mp):
+                continue
+            m = json.load(open(mp))
+            rp = os.path.join(root, d, "result.json")
+            res = json.load(open(rp)) if os.path.exists(rp) else {}
+            cells = []
+            for p_ in m.get("properties", []):
+                v = (res.get("summary") or {}).get(p_)
+                if v is None:
+                    tally["pending"] += 1; cells.append(f"{p_}: pending")
+                elif v == "pass":
+                    tally["pass"] += 1; cells.append(f"{p_}: pass")
+                elif v.startswith("VIOLATION no-failing-input-found"):
+                    tally["tolerated"] += 1
+                    br = (((res.get("checks") or {}).get(p_) or {}).get("detail") or {}).get("broken") or []
+                    why = str(br[0])[:90].replace("|", "/") if br else ""
+                    cells.append(f"{p_}: VIOLATION … no-failing-input-found ({why})")
+                elif v.startswith("FALSE ALARM"):
+                    tally["false alarm"] += 1; cells.append(f"{p_}: **FALSE ALARM (concrete input)**")
+                else:
+                    tally["infra"] += 1; cells.append(f"{p_}: {v}")
+            rows.append(f"| {d} | {str(m.get('summary', ''))[:330].replace('|', '/')} | {'; '.join(cells)} |")
+        head = open(os.path.join(root, "README.md")).read().split("\nTally")[0]
+        txt = head + "\nTally (property checks): " + ", ".join(f"{k}: {v}" for k, v in tally.items()) + "\n\n" \
+            + "| id | files / refactoring (summary of its author) | quick checks of the properties it touches |\n|---|---|---|\n" + "\n".join(rows) + "\n"
+        open(os.path.join(root, "README.md"), "w").write(txt)
+        print(tally)
+        sys.exit(0)
     if sys.argv[1] == "collect":
         print(collect(sys.argv[2], sys.argv[3], sys.argv[4].split(",")))
         sys.exit(0)
